@@ -15,6 +15,7 @@ theorems are about the point it returns. -/
 namespace C08
 variable {P : Type} [AddCommGroup P] {ops : CryptoOps P}
 
+omit [AddCommGroup P] in
 /-- **Legacy (64-byte) round trip.** For every amount `a < 2^64`, mask `y < l` and shared scalar `k`: decoding the sender's
 `(y + Hs(k), a + Hs(Hs(k)))` returns exactly `(a, y)`; and for every receiver `(v, R, i)` whose shared scalar
 `Hs(enc(8·v·R) ‖ varint i)` is `k`, `open_commitment` against the commitment `C = y·G + a·H` succeeds with amount `a`, blinding
@@ -33,6 +34,7 @@ theorem C08_legacy_roundtrip (decP : Bytes → Option P) (H : P) (hH : decP Gen.
   intro v R i hk
   exact openCommitment_complete ops decP _ v R i _ H hH a y (by rw [hk]; exact hd) rfl
 
+omit [AddCommGroup P] in
 /-- **Compact (8-byte) round trip.** For every amount `a < 2^64` and shared scalar `k`: decoding the sender's
 `a_le8 XOR Keccak("amount" ‖ k)[0..8]` returns exactly `a` with the derived mask `Hs("commitment_mask" ‖ k)`; and
 `open_commitment` against `C = mask·G + a·H` succeeds with that amount, mask and commitment. -/
@@ -107,6 +109,7 @@ theorem C08_opening_sound (L : Lawful ops) (decP : Bytes → Option P) (p : Pref
     · unfold Owned.blindingFactor; rw [hw']; rfl
     · unfold Owned.commitment; rw [hw', ← hcomm]; rfl
 
+omit [AddCommGroup P] in
 /-- **Clear amounts.** Without RingCT data — version-1 transactions and version-2 transactions without inputs have no base,
 coinbase transactions have type `Null` — every reported output has no opening, no blinding factor, no commitment, and its
 amount is the clear amount of the output at that position: `a > 0 ↦ Some(a)`, `0 ↦ None`. -/
@@ -128,7 +131,13 @@ theorem C08_clear_amounts (decP : Bytes → Option P) (p : Prefix) (v : Nat) (S 
   · unfold Owned.commitment; rw [hw']; rfl
   · unfold Owned.amount; rw [hw', hout]
 
-/-- the hypotheses are satisfiable: a lawful instance whose order is that of Ed25519 (`2^64 ≤ l ≤ 2^256`) -/
-example : ∃ (Q : Type) (_ : AddCommGroup Q) (o : CryptoOps Q), Lawful o ∧ 2 ^ 64 ≤ o.l ∧ o.l ≤ 2 ^ 256 :=
-  ⟨_, _, zmodOps, zmodOps_lawful, by show 2 ^ 64 ≤ Ed.l; unfold Ed.l; omega, by show Ed.l ≤ 2 ^ 256; unfold Ed.l; omega⟩
+/-- the hypotheses are satisfiable together: a lawful instance with the order of Ed25519 (`2^64 ≤ l ≤ 2^256`), a hash
+returning 32 bytes, and a decompression accepting `H` -/
+example : ∃ (Q : Type) (_ : AddCommGroup Q) (o : CryptoOps Q) (decP : Bytes → Option Q) (H : Q),
+    Lawful o ∧ 2 ^ 64 ≤ o.l ∧ o.l ≤ 2 ^ 256 ∧ (∀ m, 8 ≤ (o.keccak m).length) ∧ decP Gen.pointH = some H :=
+  ⟨_, _, { zmodOps with keccak := fun _ => List.replicate 32 0 }, fun _ => some 1, 1,
+    ⟨zmodOps_lawful.add_eq, zmodOps_lawful.sub_eq, zmodOps_lawful.smul_eq, zmodOps_lawful.l_gt, zmodOps_lawful.base_order,
+      zmodOps_lawful.enc_inj, zmodOps_lawful.dec_enc⟩,
+    by show 2 ^ 64 ≤ Ed.l; unfold Ed.l; omega, by show Ed.l ≤ 2 ^ 256; unfold Ed.l; omega,
+    fun _ => by simp, rfl⟩
 end C08
